@@ -1,4 +1,5 @@
 import AdeptProofs.Lemmas.Views
+import AdeptProofs.Lemmas.IndexedViews
 /-!
 # C06 — views address exactly the elements their index expressions denote
 
@@ -7,7 +8,10 @@ All statements are about `AdeptModel/Views.lean`, the transcription of `Array::o
 `range`, `stride`, `__`, `end` arithmetic), `subset`, `operator[]`, `T`, `permute`, `diag_vector`,
 `submatrix_on_diagonal`, `reshape`, `soft_link` and `is_contiguous`; the correspondence check
 (checks/c06.py) ties that model to the C++ on every run, in the default and in the
-`-DADEPT_BOUNDS_CHECKING` build.
+`-DADEPT_BOUNDS_CHECKING` build.  The last section (`C06_indexed_*`) is about integer-vector indexing
+(`AdeptModel/IndexedViews.lean`, the transcription of `IndexedArray.h`): `A(idx)`, `M(rows,1)`,
+`M(__,cols)`, `A(1,end,idx)`, `A(idx1,range(…),idx2)`, … whose result is an expression that translates
+coordinates on every access instead of a (base, dims, strides) view.
 
 A view is `(base, dims, strides)`; `addr v ix = base + Σ ixₖ·stridesₖ` is the offset of element `ix`
 from the start of the parent allocation.  A view has no data of its own, so "reads the parent's
@@ -241,6 +245,183 @@ theorem C06_within_parent_checked (ops : List Op) (v w : View) (hwf : v.WF) (h :
 theorem C06_is_contiguous_iff (v : View) (hwf : v.WF) :
     isContiguous v = true ↔ v.strides = packRowMajor v.dims := isContiguous_iff v hwf
 
+/-! ## integer-vector indexing (`IndexedArray`)
+
+`indexed v sels checked` is the constructor of the `IndexedArray` returned by `A(s0,s1,…)` when at least
+one selector is an integer vector (`Sel.vec`, entries possibly written with `end`), the others being
+scalar (`int` or `end-k`), `range`/`stride` or `__`.  `ixAddr checked iv ix` is the cell a read or a write
+of element `ix` accesses (`translate_coords_` + `get_value_with_len_` + `set_location`), or the exception
+raised instead; `ixRead` / `ixStores` are the whole statements `B = A(…)` and `A(…) = values`. -/
+
+/-- for every in-range index `ix` of the result, the cell that is accessed is
+    `addr parent (expandSel selectors ix)`: scalar selectors fixed, `b + s·i` in ranged dimensions, `i`
+    under `__`, entry number `i` of an index vector, EVERY selector (in particular a scalar `end-k`
+    after other scalar selectors) resolved against the extent of its own dimension; ranks, extents and
+    selectors arbitrary.  In the default build the access is always made; in the checked build it is
+    made only if it does not raise. -/
+theorem C06_indexed_addr {v : View} {sels : List Sel} {checked : Bool} {iv : IView}
+    (h : indexed v sels checked = .ok iv) :
+    iv.parent = v ∧ iv.sels = sels ∧
+    ∀ ix : List Int, InRange ix iv.dims →
+      (expandSel v.dims sels ix).length = v.dims.length ∧
+      (∀ a, ixAddr checked iv ix = .ok a → a = addr v (expandSel v.dims sels ix)) ∧
+      (checked = false → ixAddr checked iv ix = .ok (addr v (expandSel v.dims sels ix))) := by
+  obtain ⟨_, hd, hp, hs⟩ := indexed_ok h
+  refine ⟨hp, hs, fun ix hix => ⟨?_, ?_, ?_⟩⟩
+  · exact expandSel_length checked _ _ _ _ hd (InRange_length hix)
+  · intro a ha
+    obtain ⟨r, hr, rfl⟩ := ixAddr_ok ha
+    rw [hp, hs] at hr
+    obtain ⟨h1, _⟩ := translateCoords_ok checked _ _ _ _ (InRange_nonneg hix) hr
+    rw [hp, h1]
+  · intro hc
+    subst hc
+    unfold ixAddr
+    rw [hp, hs, translateCoords_unchecked _ _ _ _ hd hix]
+    rfl
+
+/-- rank and extents of `A(s0,s1,…)`: one selector per dimension of `A`; the rank is the number of
+    non-scalar selectors; the extents are, in order, the number of entries of an index vector, the extent
+    `(e + s - b)/s` of a range (the formula of `C06_range_extent`), the parent extent under `__` -/
+theorem C06_indexed_extents {v : View} {sels : List Sel} {checked : Bool} {iv : IView}
+    (h : indexed v sels checked = .ok iv) :
+    sels.length = v.dims.length ∧ iv.dims.length = nonScalarCount sels ∧ iv.dims = selExtents v.dims sels := by
+  obtain ⟨_, hd, _, _⟩ := indexed_ok h
+  obtain ⟨h1, h2, h3⟩ := ixDims_ok checked _ _ _ hd
+  exact ⟨h3, h2, h1⟩
+
+/-- admissible selectors (`SelsAdm`: scalar indices, range end points and every index-vector entry, after
+    resolving `end`, lie in `0 … n-1` of their dimension): in both builds every element of the result is
+    accessed without exception and is an element of the parent — the composed index is a valid parent
+    index, so the cell is a parent cell -/
+theorem C06_indexed_within_parent {v : View} {sels : List Sel} {checked : Bool} {iv : IView}
+    (h : indexed v sels checked = .ok iv) (hadm : SelsAdm v.dims sels) :
+    ∀ ix : List Int, InRange ix iv.dims →
+      InRange (expandSel v.dims sels ix) v.dims ∧
+      ixAddr checked iv ix = .ok (addr v (expandSel v.dims sels ix)) ∧
+      cells v (addr v (expandSel v.dims sels ix)) := by
+  obtain ⟨_, hd, hp, hs⟩ := indexed_ok h
+  intro ix hix
+  obtain ⟨h1, h2⟩ := translateCoords_adm checked _ _ _ _ hadm hd hix
+  refine ⟨h2, ?_, ⟨_, h2, rfl⟩⟩
+  unfold ixAddr
+  rw [hp, hs, h1]
+  rfl
+
+/-- hence, for admissible selectors, `B = A(s0,…)` reads exactly the denoted parent cells in index order
+    and `A(s0,…) = values` stores value number `k` to the cell of element number `k`, for every element,
+    and nothing else, raising nothing (both builds; nothing at all is accessed when an extent is 0) -/
+theorem C06_indexed_read_write {v : View} {sels : List Sel} {checked : Bool} {iv : IView}
+    (h : indexed v sels checked = .ok iv) (hadm : SelsAdm v.dims sels) (hne : iv.isEmpty = false) :
+    ixRead checked iv = .ok ((allIndices iv.dims).map fun ix => addr v (expandSel v.dims sels ix)) ∧
+    ∀ vals : List Int, vals.length = (allIndices iv.dims).length →
+      ixStores checked iv vals =
+        (((allIndices iv.dims).map fun ix => addr v (expandSel v.dims sels ix)).zip vals, none) := by
+  have hall : ∀ ix ∈ allIndices iv.dims, ixAddr checked iv ix = .ok (addr v (expandSel v.dims sels ix)) :=
+    fun ix hix => (C06_indexed_within_parent h hadm ix (allIndices_inRange _ _ hix)).2.1
+  constructor
+  · unfold ixRead
+    rw [hne]
+    exact mapM_ok_of_forall _ _ _ hall
+  · intro vals hl
+    unfold ixStores
+    rw [hne]
+    exact storesGo_total checked iv _ _ _ hall hl
+
+/-- write-through to exactly those cells: after the stores of an assignment, a cell that is not the cell
+    of some element keeps its value, and a cell of the selection holds a value that was assigned to an
+    element denoting it (the last one, for a repeated index-vector entry) -/
+theorem C06_indexed_write_through {v : View} {sels : List Sel} {checked : Bool} {iv : IView}
+    (h : indexed v sels checked = .ok iv) (hadm : SelsAdm v.dims sels) (hne : iv.isEmpty = false)
+    (vals : List Int) (hl : vals.length = (allIndices iv.dims).length) (mem : Int → Int) (a : Int) :
+    let cellsOf := (allIndices iv.dims).map fun ix => addr v (expandSel v.dims sels ix)
+    let after := applyStores mem (ixStores checked iv vals).1
+    (a ∉ cellsOf → after a = mem a) ∧
+    (a ∈ cellsOf → ∃ p ∈ cellsOf.zip vals, p.1 = a ∧ after a = p.2) := by
+  intro cellsOf after
+  have hst : (ixStores checked iv vals).1 = cellsOf.zip vals := by
+    rw [(C06_indexed_read_write h hadm hne).2 vals hl]
+  constructor
+  · intro hna
+    show applyStores mem (ixStores checked iv vals).1 a = mem a
+    rw [hst]
+    apply applyStores_other
+    intro p hp hpa
+    exact hna (hpa ▸ (List.of_mem_zip hp).1)
+  · intro ha
+    show ∃ p ∈ cellsOf.zip vals, p.1 = a ∧ applyStores mem (ixStores checked iv vals).1 a = p.2
+    rw [hst]
+    apply applyStores_mem
+    obtain ⟨k, hk, rfl⟩ := List.mem_iff_getElem.mp ha
+    have hk' : k < vals.length := by
+      rw [hl]
+      simpa [cellsOf] using hk
+    exact ⟨(cellsOf[k], vals[k]), by
+      rw [List.mem_iff_getElem]
+      exact ⟨k, by rw [List.length_zip]; exact Nat.lt_min.mpr ⟨hk, hk'⟩, by simp⟩, rfl⟩
+
+/-- `-DADEPT_BOUNDS_CHECKING`: an element whose composed parent index is not valid — because an
+    index-vector ENTRY, a scalar index or a range value is outside `0 … n-1` of its dimension — is not
+    accessed: `index_out_of_bounds` is raised instead; conversely every access that is made goes to a
+    parent cell, so whatever the selectors hold no statement reads or writes outside the parent view.
+    If some scalar index or index-vector entry is inadmissible and no extent is 0, the whole read
+    `B = A(…)` and every assignment `A(…) = values` raise `index_out_of_bounds`. -/
+theorem C06_indexed_checked_rejects {v : View} {sels : List Sel} {iv : IView}
+    (h : indexed v sels true = .ok iv) :
+    (∀ ix : List Int, InRange ix iv.dims → ¬ InRange (expandSel v.dims sels ix) v.dims →
+        ixAddr true iv ix = .error .index_out_of_bounds) ∧
+    (∀ ix : List Int, InRange ix iv.dims → ∀ a, ixAddr true iv ix = .ok a → cells v a) ∧
+    (∀ vals : List Int, ∀ p ∈ (ixStores true iv vals).1, cells v p.1) ∧
+    (¬ SelsAdm v.dims sels → iv.isEmpty = false →
+        ixRead true iv = .error .index_out_of_bounds ∧
+        ∀ vals : List Int, (allIndices iv.dims).length ≤ vals.length →
+          (ixStores true iv vals).2 = some .index_out_of_bounds) := by
+  obtain ⟨_, hd, hp, hs⟩ := indexed_ok h
+  have hok : ∀ ix : List Int, InRange ix iv.dims → ∀ a, ixAddr true iv ix = .ok a →
+      InRange (expandSel v.dims sels ix) v.dims ∧ a = addr v (expandSel v.dims sels ix) := by
+    intro ix hix a ha
+    obtain ⟨r, hr, rfl⟩ := ixAddr_ok ha
+    rw [hp, hs] at hr
+    obtain ⟨h1, _, h3⟩ := translateCoords_ok true _ _ _ _ (InRange_nonneg hix) hr
+    rw [hp]
+    exact ⟨h1 ▸ h3 rfl, by rw [h1]⟩
+  have herr : ∀ ix : List Int, InRange ix iv.dims → ∀ e, ixAddr true iv ix = .error e → e = .index_out_of_bounds := by
+    intro ix hix e he
+    have := ixAddr_err he
+    rw [hp, hs] at this
+    exact (translateCoords_err true _ _ _ _ _ hd hix this).2
+  have hrej : ∀ ix : List Int, InRange ix iv.dims → ¬ InRange (expandSel v.dims sels ix) v.dims →
+      ixAddr true iv ix = .error .index_out_of_bounds := by
+    intro ix hix hbad
+    cases ha : ixAddr true iv ix with
+    | ok a => exact absurd (hok ix hix a ha).1 hbad
+    | error e => rw [herr ix hix e ha]
+  refine ⟨hrej, ?_, ?_, ?_⟩
+  · intro ix hix a ha
+    obtain ⟨h1, rfl⟩ := hok ix hix a ha
+    exact ⟨_, h1, rfl⟩
+  · intro vals p hp'
+    unfold ixStores at hp'
+    split at hp'
+    · simp at hp'
+    · obtain ⟨ix, hix, ha⟩ := storesGo_mem true iv _ _ _ _ rfl p hp'
+      obtain ⟨h1, h2⟩ := hok ix (allIndices_inRange _ _ hix) _ ha
+      exact ⟨_, h1, h2.symm⟩
+  · intro hadm hne
+    obtain ⟨ix, hix, hbad⟩ := exists_oob_index _ _ _ hd (isEmpty_false hne) hadm
+    have hex : ∃ ix ∈ allIndices iv.dims, ∃ e, ixAddr true iv ix = .error e :=
+      ⟨ix, allIndices_complete _ _ hix, _, hrej ix hix hbad⟩
+    have hall : ∀ ix ∈ allIndices iv.dims, ∀ e, ixAddr true iv ix = .error e → e = .index_out_of_bounds :=
+      fun ix hix e he => herr ix (allIndices_inRange _ _ hix) e he
+    constructor
+    · unfold ixRead
+      rw [hne]
+      exact mapM_err_of_exists _ _ _ hex hall
+    · intro vals hl
+      unfold ixStores
+      rw [hne]
+      exact storesGo_err true iv _ _ _ hex hall hl
+
 /-! ## non-vacuity
 
 A 3×4×5 parent; `A(1, stride(end,0,-1), range(1,end))`, then `T`, then `diag_vector(-1)`: the run
@@ -259,6 +440,20 @@ example : slice (fresh true [3, 4]) [.at (.lit 3), .all] true = .error .index_ou
 example : ¬ ArgsAdm [3, 4] [.at (.lit 3), .all] := by simp [ArgsAdm, ArgAdm, EndExpr.resolve]
 example : slice (fresh true [6]) [.range (.lit 3) (.lit 2)] true = .ok ⟨3, [0], [1]⟩ := by decide
 example : IsPerm [2, 0, 1] 3 := ⟨rfl, by decide⟩
-example : permute (fresh true [2, 3, 4]) [2, 0, 1] = .ok ⟨0, [4, 2, 3], [1, 12, 4]⟩ := by decide
+
+/-! `A(1, end, idx)` on a 2×5×4 array with `idx = (3,0,2)`: `end` is resolved against the extent 5 of
+dimension 1 (cells 39, 36, 38 = row (1,4)); the selectors are admissible; in the checked build an entry
+equal to the extent is rejected and the stores made before it stay inside the parent. -/
+example : ∃ iv, indexed (fresh true [2, 5, 4]) [.at (.lit 1), .at (.fromEnd 0), .vec [.lit 3, .lit 0, .lit 2]] false = .ok iv ∧
+    iv.dims = [3] ∧ ixRead false iv = .ok [39, 36, 38] := ⟨_, rfl, by decide, by decide⟩
+example : SelsAdm [2, 5, 4] [.at (.lit 1), .at (.fromEnd 0), .vec [.lit 3, .lit 0, .lit 2]] := by
+  simp [SelsAdm, SelAdm, EndExpr.resolve]
+example : ∃ iv, indexed (fresh true [6]) [.vec [.lit 3, .lit 6, .lit 2]] true = .ok iv ∧ iv.isEmpty = false ∧
+    ixRead true iv = .error .index_out_of_bounds ∧
+    ixStores true iv [-1, -2, -3] = ([(3, -1)], some .index_out_of_bounds) := ⟨_, rfl, by decide, by decide, by decide⟩
+example : ¬ SelsAdm [6] [.vec [.lit 3, .lit 6, .lit 2]] := by
+  simp [SelsAdm, SelAdm, EndExpr.resolve]
+example : ∃ iv, indexed (fresh true [3, 4]) [.all, .vec [.lit 3, .lit 1]] true = .ok iv ∧
+    iv.dims = [3, 2] ∧ ixRead true iv = .ok [3, 1, 7, 5, 11, 9] := ⟨_, rfl, by decide, by decide⟩
 
 end Adept.Views
